@@ -91,12 +91,16 @@ func c22Encode(e []ev.Event) ([]byte, interface{}) {
 
 const c22Directed = 600
 
+// c22ExtraLens: element counts beyond 0..40 — around every power of 256 and of 128 (the count's low byte / low 7 bits
+// start again from 0 there), where a header that keeps only part of the count would look like a short one.
+var c22ExtraLens = []int{127, 128, 129, 143, 255, 256, 257, 260, 271, 272, 300, 511, 512, 527, 528, 1024, 1030, 4096, 4100, 16383, 16384, 16385, 16399, 65536, 65540}
+
 func init() {
 	fw.Register(&fw.Check{
 		ID:    "C22",
 		Level: "exploration",
 		Rule: "part 1: single value events (integers exhaustively +-3 around every width boundary 2^k and the small-int limit in every event form, all 65536 bfloat16 patterns, " +
-			"float32/float64 samples, strings and typed arrays of every length 0..40 in whole and single-final-chunk form) are encoded by cbe.Encoder and the byte length is compared with an " +
+			"float32/float64 samples, strings and typed arrays of every length 0..40 and of 25 lengths around 128, 256, 512, 1024, 4096, 16384 and 65536 in whole and single-final-chunk form) are encoded by cbe.Encoder and the byte length is compared with an " +
 			"independent minimal-size model; part 2: generated rules-valid streams are encoded, decoded and re-encoded and the bytes must be identical. " +
 			"Non-trivial = value at or next to a form boundary, or stream with a container; distinct = distinct (event, size) / distinct documents.",
 		Assumptions: []string{"the size model in c22.go is written from the CBE format description (type code tables), not from the encoder", "multi-chunk layouts chosen by the caller are preserved by the encoder and therefore not size-asserted"},
@@ -202,9 +206,12 @@ func runC22(c *fw.Ctx, idx int) {
 				c22BigFloatLikeFloat(c, h)
 			}
 		}
-	case idx < 80+256+41:
+	case idx < 80+256+41+len(c22ExtraLens):
 		// arrays and strings of length n in whole and single-final-chunk form
 		n := idx - 336
+		if n > 40 {
+			n = c22ExtraLens[n-41]
+		}
 		ats := []events.ArrayType{events.ArrayTypeString, events.ArrayTypeResourceID, events.ArrayTypeBit, events.ArrayTypeUint8, events.ArrayTypeUint16, events.ArrayTypeUint32,
 			events.ArrayTypeUint64, events.ArrayTypeInt8, events.ArrayTypeInt16, events.ArrayTypeInt32, events.ArrayTypeInt64, events.ArrayTypeFloat16,
 			events.ArrayTypeFloat32, events.ArrayTypeFloat64, events.ArrayTypeUID}
